@@ -189,13 +189,86 @@ class H1mf2(Case):
         return obs
 
 
+_H1R_SCRIPT = r"""
+import json, sys, warnings
+import numpy as np
+warnings.simplefilter("ignore")
+import oqupy
+out = {}
+corr = oqupy.PowerLawSD(alpha=0.1, zeta=1.0, cutoff=2.0, cutoff_type="exponential", temperature=0.5)
+params = oqupy.TempoParameters(dt=0.2, dkmax=2, epsrel=1e-9, add_correlation_time=0.4)
+for name, op in (("tenths", np.diag([0.1, 0.2, 0.3])), ("thirds", np.diag([1/3, 2/3, 1.0])), ("sevenths", np.diag([1/7, 3/7, 5/7, 1.0]))):
+    d = op.shape[0]
+    h = np.ones((d, d)) * 0.3 + np.diag(np.arange(d) * 0.5)
+    rho = np.ones((d, d), dtype=complex) / d
+    res = {}
+    for method in ("tempo", "pt", "mf"):
+        st = {}
+        for unique in (False, True):
+            try:
+                bath = oqupy.Bath(op, corr)
+                if method == "tempo":
+                    dyn = oqupy.Tempo(oqupy.System(h), bath, params, rho, 0.0, unique=unique).compute(0.8, progress_type="silent")
+                    st[unique] = np.array(dyn.states)
+                elif method == "pt":
+                    pt = oqupy.PtTempo(bath, 0.0, 0.8, params, unique=unique).get_process_tensor(progress_type="silent")
+                    st[unique] = np.array(oqupy.compute_dynamics(oqupy.System(h), initial_state=rho, process_tensor=pt, progress_type="silent").states)
+                else:
+                    sysf = oqupy.TimeDependentSystemWithField(lambda t, a: h)
+                    mfs = oqupy.MeanFieldSystem([sysf], field_eom=lambda t, states, a: 0.0 * a)
+                    dyn = oqupy.MeanFieldTempo(mfs, [bath], params, [rho], 1.0 + 0j, 0.0, unique=unique).compute(0.8, progress_type="silent")
+                    st[unique] = np.array(dyn.system_dynamics[0].states)
+            except Exception as e:
+                st[unique] = "%s: %s" % (type(e).__name__, str(e)[:80])
+        if isinstance(st[True], str) or isinstance(st[False], str):
+            res[method] = {"error": [str(st[False])[:120] if isinstance(st[False], str) else None, str(st[True])[:120] if isinstance(st[True], str) else None]}
+        else:
+            res[method] = {"dev": float(abs(st[True] - st[False]).max()) if st[True].shape == st[False].shape else 1e9}
+    out[name] = res
+print("H1R" + json.dumps(out))
+"""
+
+
+class H1r(Case):
+    """CONCRETE double-precision observation (no solver contribution; complements H1, whose symbolic spectra are exactly
+    representable): coupling spectra whose differences coincide only up to rounding (0.2-0.1 vs 0.3-0.2) -- the degeneracy
+    detection rounds to 12 decimals, so every place that selects class representatives must use the same rounded keys.
+    Real stack in a fresh interpreter: unique=True runs, and its states agree with unique=False to 1e-8."""
+    stubs = ()
+    functions = ("Tempo._influence", "PtTempo._influence", "MeanFieldTempo._get_influence", "Bath.__init__")
+    validate = False
+
+    def __init__(self):
+        self.id = "H1r/rounding_level_coincidences"
+        self.bounds = {"spectra": ["(0.1,0.2,0.3)", "(1/3,2/3,1)", "(1/7,3/7,5/7,1)"], "N": 4, "dkmax": 2, "add_correlation_time": 0.4,
+                       "arithmetic": "IEEE double, real stack, fresh interpreter"}
+
+    def run(self, inp):
+        import json, os, subprocess, sys
+        from vf.core import REPO
+        envv = dict(os.environ, PYTHONPATH=REPO, OMP_NUM_THREADS="1")
+        r = subprocess.run([sys.executable, "-c", _H1R_SCRIPT], capture_output=True, text=True, env=envv, timeout=600)
+        line = [l for l in r.stdout.splitlines() if l.startswith("H1R")]
+        if not line:
+            return [Ob.holds("real-stack run completed (stderr: %s)" % r.stderr[-200:], False, key="ran")]
+        res = json.loads(line[0][3:])
+        obs = []
+        for spec, per in sorted(res.items()):
+            for method, v in sorted(per.items()):
+                if "error" in v:
+                    obs.append(Ob.holds("%s/%s: unique=True and unique=False both run (%s)" % (spec, method, v["error"]), False, key="runs"))
+                else:
+                    obs.append(Ob.holds("%s/%s: |states(unique) - states(full)| = %.2e <= 1e-8" % (spec, method, v["dev"]), v["dev"] <= 1e-8, key="agree"))
+        return obs
+
+
 def cases(tier):
     cs = []
     for m in ("tempo", "pt", "mf"):
         cs += [H1(m, "sz", 3, 1, True), H1(m, "sz", 3, None), H1(m, "id2", 3, 1), H1(m, "d3_001", 2, 1), H1(m, "d3_012", 2, None)]
     cs += [H1("tempo", "sx", 2, 1), H1("pt", "sx", 2, 1), H1("tempo", "d3_111", 2, 1), H1("pt", "d3_m101", 2, 1),
            H1("tempo", "sz_frac", 2, 1), H1("pt", "sz_frac", 2, 1), H1("mf", "sz_frac", 2, None), H1("pt", "d3_frac_rep", 2, 1),
-           H1("tempo", "d3_frac", 2, 1), H1mf2("sz", "sz_shift", 2, 1), H1mf2("sz_frac", "id2", 2, None), H1mf2("sz", "d3_001", 2, 1), H0()]
+           H1("tempo", "d3_frac", 2, 1), H1mf2("sz", "sz_shift", 2, 1), H1mf2("sz_frac", "id2", 2, None), H1mf2("sz", "d3_001", 2, 1), H0(), H1r()]
     if tier == "thorough":
         # (the non-diagonal d=3 operator with a repeated eigenvalue "d3_perm" and sigma_x at N=3 give `unknown`:
         #  not used; sigma_x at N=2 and the diagonal d=3 patterns are the stated bound)
